@@ -113,7 +113,9 @@ def run_campaign(tier, seed):
     cpath = os.path.join(cdir, "campaign-%s.json" % key)
     if os.path.exists(cpath) and not os.environ.get("VERIF_NOCACHE"):
         d.log("[campaign] cached result %s" % cpath)
-        return json.load(open(cpath))
+        res = json.load(open(cpath))
+        res["from_cache"] = True
+        return res
     t0 = time.time()
     w = d.workdir("campaign")
     exe = d.cargo_build()
@@ -235,6 +237,10 @@ def judge(res, defs, trace, name, labels, fam, chunks=1):
 
 def run_property(chk, pid):
     res = run_campaign(chk.tier, chk.seed)
+    if res.get("from_cache"):
+        # the eight parser-core checks share one campaign per (tree, spec, tier, seed): report the time of the run that produced it
+        chk.t0 -= res.get("wall_s", 0)
+        chk.extra["campaign_result"] = "shared with the other parser-core checks (same /repo state, specification, tier and seed)"
     chk.states += res["states"]
     chk.transitions += res["transitions"]
     chk.traces += res["replayed"] + res["recorded"]
